@@ -95,7 +95,7 @@ pub fn search(_item: &str, seed: u64, _hint: &Value) -> Option<(Value, String)> 
     let mut rng = Rng::new(seed);
     let mut cases: Vec<Vec<(u8, u8)>> = vec![vec![(0, 1)], vec![(0, 2)], vec![(0, 1), (0, 3)], vec![(0, 2), (1, 1), (0, 1)], vec![(0, 3), (1, 2)]];
     for _ in 0..6 { let n = 1 + rng.below(4) as usize; cases.push((0..n).map(|_| (rng.below(2) as u8, 1 + rng.below(3) as u8)).collect()); }
-    for c in cases { if let Some(d) = run_case(&c) { return Some((to_json(&c), d)); } }
+    for c in cases { let j = to_json(&c); if let Some(d) = run_isolated("U17", "x", &j) { return Some((j, d)); } }
     None
 }
 pub fn run(_item: &str, input: &Value) -> Option<String> {
